@@ -181,6 +181,11 @@ PyAttr(s, v, a) ==
                         ELSE [found |-> FALSE, v |-> VNone]
       [] v.t = "ns" -> IF MapHas(s.ns[v.id], a) THEN [found |-> TRUE, v |-> s.ns[v.id][a]]
                        ELSE [found |-> FALSE, v |-> VNone]
+      \* C38: a loop over an iterable whose step number fk raises: attributes that need the whole sequence consume
+      \* it (and raise); those that look one item ahead raise when that item is the faulty step
+      [] v.t = "loop" /\ "fk" \in DOMAIN v /\ (a \in {"length", "revindex", "revindex0"}
+                                               \/ (a \in {"last", "nextitem"} /\ v.i + 2 = v.fk)) ->
+           [found |-> TRUE, v |-> [t |-> "raiser", exc |-> "Private", id |-> v.fid]]
       [] v.t = "loop" -> IF a \in LoopAttrs THEN [found |-> TRUE, v |-> LoopAttr(v, a)]
                          ELSE IF a = "cycle" THEN [found |-> TRUE, v |-> [t |-> "loopcycle", l |-> v]]
                          ELSE IF a = "changed" THEN [found |-> TRUE, v |-> [t |-> "loopchanged", l |-> v]]
@@ -608,6 +613,7 @@ IterItems(v) ==
       [] v.t = "dict" -> [ok |-> TRUE, v |-> v.k, err |-> ""]
       [] v.t = "undef" -> IF UKof(v, UK) = "strict" THEN Err("UndefinedError") ELSE [ok |-> TRUE, v |-> <<>>, err |-> ""]
       [] v.t \in {"int", "bool", "none", "float"} -> Err("TypeError")
+      [] v.t = "iterfault" -> Err("Raised:" \o v.id)          \* consuming it completely always reaches the faulty step
       [] OTHER -> Err("EXCLUDED")
 
 ApplyFilter(n, v, args, kw, s, E) ==
@@ -844,10 +850,11 @@ FilterItems(node, items, i, s, E, acc) ==
 
 \* run a for loop over the value `itv`; `isRec`: called through loop(...)
 RunLoop(node, itv, depth0, s, E, isRec, inner) ==
-    \* C38: an iterable whose k-th step raises: every way of consuming it raises that exception
-    IF itv.t = "iterfault" THEN Fail(s, "Raised:" \o itv.id).S
-    ELSE
-    LET it == IterItems(itv) IN
+    \* C38: an iterable whose k-th step raises: the items before it are visited normally; unless the loop is
+    \* left by break first, asking for step k ends the render with that exception
+    LET faulty == itv.t = "iterfault"
+        it == IF faulty THEN [ok |-> TRUE, v |-> SubSeq(itv.v, 1, IF itv.k - 1 < Len(itv.v) THEN itv.k - 1 ELSE Len(itv.v)), err |-> ""]
+              ELSE IterItems(itv) IN
     IF ~it.ok THEN Fail(s, it.err).S
     ELSE
     LET f == IF Has(node, "filter") THEN FilterItems(node, it.v, 1, s, E, <<>>) ELSE [S |-> s, items |-> it.v]
@@ -856,17 +863,21 @@ RunLoop(node, itv, depth0, s, E, isRec, inner) ==
         RECURSIVE Iter(_, _)
         Iter(i, st) ==
             IF i > Len(items) \/ st.err # "" \/ st.flow = "break" THEN st
-            ELSE LET lp == [t |-> "loop", i |-> i - 1, items |-> items, depth0 |-> depth0,
-                            rec |-> Fld(node, "recursive", FALSE), node |-> node, E |-> E, cell |-> cellId]
+            ELSE LET lp0 == [t |-> "loop", i |-> i - 1, items |-> items, depth0 |-> depth0,
+                             rec |-> Fld(node, "recursive", FALSE), node |-> node, E |-> E, cell |-> cellId]
+                     \* the faulty step comes when the item after the last visitable one is asked for (also through a
+                     \* loop filter, which scans forward for the next passing item)
+                     lp == IF faulty THEN lp0 @@ [fk |-> Len(items) + 1, fid |-> itv.id] ELSE lp0
                      s0 == NewFrame([st EXCEPT !.flow = ""], ("loop" :> lp) @@ PreMap(node, "pre_body"))
                      E2 == [E EXCEPT !.sc = <<LastFrame(s0)>> \o E.sc, !.top = FALSE, !.loopd = E.loopd + 1]
                      s1 == AssignTarget(s0, E2, node.target, items[i])
                      s2 == ExSeq(node.body, s1, E2) IN
                  Iter(i + 1, s2)
         after == IF f.S.err # "" THEN f.S ELSE Iter(1, [f.S EXCEPT !.ns = Append(@, ("last" :> VMissing))])
-        done == [after EXCEPT !.flow = ""]
+        done == IF faulty /\ after.err = "" /\ after.flow # "break" THEN Fail(after, "Raised:" \o itv.id).S
+                ELSE [after EXCEPT !.flow = ""]
     IN IF done.err # "" THEN done
-       ELSE IF items = <<>> /\ Has(node, "else") THEN InScope(node["else"], done, E, PreMap(node, "pre_else"))
+       ELSE IF items = <<>> /\ Has(node, "else") /\ ~faulty THEN InScope(node["else"], done, E, PreMap(node, "pre_else"))
        ELSE done
 
 TplAuto(tname) == Tpls[tname].auto
